@@ -7,9 +7,9 @@ ordered map, pointer, drop. C18 is about exactly these distinctions, and `values
 `Convert`, `fmt.Sprint` dispatch on them.
 
 Floats are exact rationals (every finite `float64` is one); NaN, ±Inf and −0 are outside the
-model (`unmodelled`). A `map`'s entry list is kept sorted by key (the canonical order of the
-line protocol); operations on it never depend on that order except where the repaired code
-sorts the keys itself.
+model (`unmodelled`). A `map`'s entry list is in no particular order (a Go map has none): every
+operation that iterates a map sorts the entries first (`Liquid/MapOrder.lean`: the order of
+`values.SortedMapKeys`), as the repaired code does; lookups find the entry by its key.
 -/
 
 inductive IntKind where
